@@ -198,9 +198,9 @@ func ruleCleanerDeletes(c *Check, rWhat, rKeep, rNewest, rStale, rErrors, rDisab
 				so := callsOf(p, "slices.SortFunc")
 				ok := len(fl) == 2 && len(so) == 1 &&
 					strings.HasPrefix(arg, fl[1].Res+"[") && strings.HasSuffix(arg, "].FullName") &&
-					fl[1].Args[0] == fl[0].Res && fl[1].Args[1] == "closure:"+fnCleanerRun+"$3" &&
-					fl[0].Args[1] == "closure:"+fnCleanerRun+"$2" && strings.HasPrefix(fl[0].Args[0], "loop:removalCandidates@") &&
-					so[0].Args[0] == fl[0].Args[0] && so[0].Args[1] == "func:"+fnCleanerRun+"$1" &&
+					fl[1].Args[0] == fl[0].Res && fl[1].Args[1] == "closure:"+fnCleanerRun+"$filter2" &&
+					fl[0].Args[1] == "closure:"+fnCleanerRun+"$filter" && strings.HasPrefix(fl[0].Args[0], "loop:removalCandidates@") &&
+					so[0].Args[0] == fl[0].Args[0] && so[0].Args[1] == "func:"+fnCleanerRun+"$sort" &&
 					eventIndex(p, so[0]) < eventIndex(p, fl[0]) && eventIndex(p, fl[0]) < eventIndex(p, fl[1])
 				if !ok {
 					bad++
@@ -239,7 +239,7 @@ func ruleCleanerDeletes(c *Check, rWhat, rKeep, rNewest, rStale, rErrors, rDisab
 		}
 	}
 	if bad == 0 {
-		c.Ok(rWhat, fnCleanerRun+"/what-is-deleted", fmt.Sprintf("%d candidate appends: only successfully parsed NameInfos of kind snapshot from List(ctx, w.prefix); %d superseded-snapshot Delete paths delete FullName of Filter($3)∘Filter($2)∘sort($1) of those candidates; %d stale-instance Delete paths delete FullName of a tooOld entry", nAppend, nDel1, nDel2), pos)
+		c.Ok(rWhat, fnCleanerRun+"/what-is-deleted", fmt.Sprintf("%d candidate appends: only successfully parsed NameInfos of kind snapshot from List(ctx, w.prefix); %d superseded-snapshot Delete paths delete FullName of Filter(newest-protection)∘Filter(keep-interval)∘sort(newest first) of those candidates; %d stale-instance Delete paths delete FullName of a tooOld entry", nAppend, nDel1, nDel2), pos)
 	}
 	c.Floor(rWhat, nDel1, 1, "superseded-snapshot Delete paths")
 	c.Floor(rWhat, nAppend, 1, "candidate appends")
@@ -266,7 +266,7 @@ func ruleCleanerDeletes(c *Check, rWhat, rKeep, rNewest, rStale, rErrors, rDisab
 
 	// closure tables
 	// $1 comparator: newest first
-	c1n := fnCleanerRun + "$1"
+	c1n := fnCleanerRun + "$sort"
 	f1, p1 := c.walkFn(rNewest, c1n, WalkConfig{})
 	if p1 != nil {
 		a, b := param(f1, 0), param(f1, 1)
@@ -290,7 +290,7 @@ func ruleCleanerDeletes(c *Check, rWhat, rKeep, rNewest, rStale, rErrors, rDisab
 		c.Expect(okc, rNewest, c1n, "the sort comparator orders candidates newest first at full timestamp resolution: a after b ⇒ −1, a before b ⇒ +1, otherwise 0", "the sort comparator is not 'newest first' on the full timestamps (After ⇒ −1, Before ⇒ +1, else 0): the entry treated as an instance's newest would be wrong", c.P.Pos(f1.Pos()))
 	}
 	// $2 keep interval
-	c2n := fnCleanerRun + "$2"
+	c2n := fnCleanerRun + "$filter"
 	f2, p2 := c.walkFn(rKeep, c2n, WalkConfig{})
 	if p2 != nil {
 		ni := param(f2, 0)
@@ -332,7 +332,7 @@ func ruleCleanerDeletes(c *Check, rWhat, rKeep, rNewest, rStale, rErrors, rDisab
 		c.Expect(ok2 && nTrue == 1, rKeep, c2n, "a candidate passes the keep-interval filter only when it was already in snapFirstSeen and now − firstSeen > MustKeepInterval (strictly); a name seen for the first time is recorded with 'now' and kept", "the keep-interval filter lets a candidate through that was not first seen strictly more than MustKeepInterval ago (or does not record the first-seen time)", c.P.Pos(f2.Pos()))
 	}
 	// $3 newest protected
-	c3n := fnCleanerRun + "$3"
+	c3n := fnCleanerRun + "$filter2"
 	f3, p3 := c.walkFn(rNewest, c3n, WalkConfig{})
 	if p3 != nil {
 		ni := param(f3, 0)
